@@ -1201,6 +1201,10 @@ def run(ctx):
             ('vv', ctx.q(4, 40)), ('exc', ctx.q(10, 150)), ('avg', ctx.q(120, 3000)), ('v3', ctx.q(20, 200))]
     if not build['build_ok']:
         plan = [(k, n * 4) for k, n in plan]
+    # in every run whatever the seed: quotients SDP / CBF dump period of 1.5 and 3.5 (where rounding and truncating
+    # to a whole number of correlator dumps differ), with the correlator stream declared
+    for rn in (3, 7):
+        cases.append(dict(gen_exc(rng), ratio_num=rn, cbf=True))
     for kind, n in plan:
         cases += [KINDS[kind][0](rng) for _ in range(n)]
     cases += [gen_avg(rng, big=True) for _ in range(ctx.q(5, 40))]
